@@ -1285,7 +1285,8 @@ def evaluate__from_datetime_functions(self: XPathFunction, context: ta.ContextTy
     if item is None:
         return []
     elif self.symbol.startswith('year'):
-        return item.year
+        # XSD 1.1 has the year 0000 (1 BCE): the year component is the lexical year
+        return item.year if item.year > 0 or self.parser.xsd_version == '1.0' else item.year + 1
     elif self.symbol.startswith('month'):
         return item.month
     elif self.symbol.startswith('day'):
@@ -1330,7 +1331,8 @@ def evaluate__from_date_functions(self: XPathFunction, context: ta.ContextType =
     if item is None:
         return []
     elif self.symbol.startswith('year'):
-        return item.year
+        # XSD 1.1 has the year 0000 (1 BCE): the year component is the lexical year
+        return item.year if item.year > 0 or self.parser.xsd_version == '1.0' else item.year + 1
     elif self.symbol.startswith('month'):
         return item.month
     elif self.symbol.startswith('day'):
